@@ -1,0 +1,33 @@
+//go:build verif
+
+// Verification contracts for package metadata, property C19 (a broker appends only to partitions whose lease
+// it holds). Comment-only; read by /verif/govc. The ghost predicate c19Held is declared in /verif/spec/leases.spec.
+
+package metadata
+
+// Trusted frame: acquiring one lease (etcd session, transaction, the lease manager's own maps) does not write the
+// request, the partition list or the result slice of the caller. Everything else may change.
+//@ func (m *PartitionLeaseManager) Acquire
+//@   modular
+//@   preserves Mem(github.com/KafScale/platform/pkg/metadata.AcquireResult), Mem(github.com/KafScale/platform/pkg/metadata.PartitionID), Mem(int)
+//@   preserves Box([]github.com/KafScale/platform/pkg/metadata.AcquireResult), Box([]github.com/KafScale/platform/pkg/metadata.PartitionID), Box(int), Box(*github.com/KafScale/platform/pkg/metadata.PartitionLeaseManager)
+//@   preserves Fields(github.com/twmb/franz-go/pkg/kmsg.ProduceRequest), Mem(github.com/twmb/franz-go/pkg/kmsg.ProduceRequestTopic), Mem(github.com/twmb/franz-go/pkg/kmsg.ProduceRequestTopicPartition)
+
+// One spawned acquisition: stores what Acquire returned for partitions[idx] into results[idx].Err.
+//@ func (m *PartitionLeaseManager) AcquireAll$1
+//@   at Acquire#1 after assume ret0 == nil ==> c19Held(arg1, arg2)
+
+// AcquireAll: one result per requested partition, in order, naming that partition; a nil error only for a
+// partition this broker already owned (Owns) or acquired now (Acquire returned nil).
+//@ func (m *PartitionLeaseManager) AcquireAll
+//@   go_inline
+//@   requires m.lm != nil
+//@   at Owns#1 after assume ret0 ==> c19Held(p.Topic, p.Partition)
+//@   ensures [C19.one_result_per_partition] len(result) == len(partitions) && (forall i int :: 0 <= i && i < len(partitions) ==> result[i].Partition == partitions[i])
+//@   ensures [C19.nil_error_means_held] forall i int :: 0 <= i && i < len(partitions) && result[i].Err == nil ==> c19Held(partitions[i].Topic, partitions[i].Partition)
+//@   loop 1 invariant -1 <= rangeindex && rangeindex < len(partitions) && len(results) == len(partitions) && (forall j int :: 0 <= j && j <= rangeindex ==> results[j].Partition == partitions[j]) && (forall j int :: 0 <= j && j < len(results) ==> results[j].Err == nil)
+//@   loop 1 invariant forall k int :: 0 <= k && k < len(needAcquire) ==> 0 <= needAcquire[k] && needAcquire[k] <= rangeindex
+//@   loop 1 invariant forall j int :: 0 <= j && j <= rangeindex ==> c19Held(partitions[j].Topic, partitions[j].Partition) || (exists k int :: 0 <= k && k < len(needAcquire) && needAcquire[k] == j)
+//@   loop 2 invariant -1 <= rangeindex && rangeindex < len(needAcquire) && len(results) == len(partitions) && (forall j int :: 0 <= j && j < len(partitions) ==> results[j].Partition == partitions[j])
+//@   loop 2 invariant forall k int :: 0 <= k && k < len(needAcquire) ==> 0 <= needAcquire[k] && needAcquire[k] < len(partitions)
+//@   loop 2 invariant forall j int :: 0 <= j && j < len(partitions) && results[j].Err == nil ==> c19Held(partitions[j].Topic, partitions[j].Partition) || (exists k int :: rangeindex < k && k < len(needAcquire) && needAcquire[k] == j)
